@@ -7,6 +7,7 @@ PROTO_NOTE = ('Assumes: relay folding (channel-capacity blocking outside), envir
               'kill succeeds and killed children are reaped at once, hash-set iteration order fixed, library models listed in the evidence; '
               'bounds n<=2 targets (quick) / n<=3 (thorough), K steps, <=2 notifications; trusted base: z3 4.8.12 (QF_BV), the syn front end, the ZX executor and its library models '
               '(validated every run by replaying solver witnesses on the real code compiled against the model runtime).')
+SYM_NOTE = ('Assumes the library/environment models listed in the evidence (virtual file system, walkdir, bincode round trip, command outputs, regex via Python re); bounds = the path universes / project families listed in the evidence; trusted base: z3, the syn front end, the ZX executor; validated every run by native runs of the real code.')
 CLAIMED = {
  'C01': ('model_checking', 'SYS bounded model checking (z3 over step summaries symbolically executed from the actor sources): no spawn before every dependency succeeded / was started; no decision to start while the last word from a dependency is not Ok (watch). Counterexamples are replayed on the real code.', '4 C01'),
  'C04': ('model_checking', 'SYS: every quiescent state of a successful one-shot run has exited Ok with every needed build done; completeness of K is an obligation; found F1 (fixed).', '4 C04'),
@@ -14,12 +15,22 @@ CLAIMED = {
  'C08': ('model_checking', 'SYS with duplicated roots: never two starts/results of a target, nothing outside the closure is launched, exactly once on success.', '4 C08'),
  'C10': ('model_checking', 'SYS with processes that never exit by themselves: signal or failure at any step still leads to exit with every spawned process killed and reaped.', '4 C10'),
  'C11': ('model_checking', 'SYS: main stays alive iff a service is requested (directly or through aggregates); services are single-instance and stopped at exit.', '4 C11'),
+ 'C02': ('other', 'symbolic execution of the real incremental::run over a symbolic file system (two invocations): run #2 = Skipped implies a complete record from run #1 and an unchanged declared tree by an independent reference semantics (listing, mtime-or-hash, command text).', '4 C02'),
+ 'C03': ('other', 'same exploration: record stored and nothing changed => Skipped; a completed run stores its record; found F3 (fixed).', '4 C03'),
+ 'C05': ('other', 'same exploration plus a three-invocation chain with zinoma dying at every file-system mutation point / while the script runs: no skip unless the record of the interrupted run was complete; failed or cancelled scripts never skip.', '4 C05'),
+ 'C06': ('model_checking', 'LOCAL bounded model checking of each actor in an open environment (watch mode): no acknowledgement of a run invalidated in flight, no start while the last word of a dependency is out of date, late requesters answered. (The whole-system convergence clause and the absorbed-change clause are outside this check; see DESIGN F6.)', '4 C06'),
+ 'C09': ('other', 'symbolic execution of the real resolver over project families with solver-chosen references and requests, compared path by path with a reference closure/cycle/kind semantics; native confirmation through the real binary.', '4 C09'),
+ 'C13': ('other', 'resolver exploration: the input of every consumer = own resources + outputs of each X.output producer bound to the producer directory; native two-run confirmation.', '4 C13'),
+ 'C18': ('other', 'incremental::run writes nothing but its own record (frame condition over every explored path); path/identity part planned.', '4 C18'),
+ 'C19': ('other', 'resolver exploration with bare and qualified spellings: accepted names, same id for both spellings, bare references resolve in the declaring project.', '4 C19'),
+ 'C20': ('model_checking', 'LOCAL bounded model checking of the aggregate actor: acknowledges exactly when the last dependency did, answers late requesters, never misdirects; SYS obligations of C04/C08/C11 range over aggregate roots.', '4 C20'),
  'C17': ('model_checking', 'SYS with a symbolic set of hanging scripts: at quiescence every target none of whose transitive dependencies hangs has been started.', '4 C17'),
 }
 checks = []
 for pid in ids:
     if pid in CLAIMED:
         cat, text, ref = CLAIMED[pid]
+        fam = 'proto' if cat == 'model_checking' else 'sym'
         checks.append({
             'property_id': pid,
             'quick_cmd': 'python3-vt run_check.py %s --tier quick' % pid,
@@ -28,8 +39,10 @@ for pid in ids:
             'replay_cmd_template': 'python3-vt run_check.py --replay {path}',
             'engine': 'zx',
             'level_claimed': {'category': cat, 'text': text, 'design_ref': 'DESIGN.md section ' + ref},
-            'level_note': PROTO_NOTE,
-            'technique': 'solver-based: symbolic execution of the Rust source (syn AST -> path-wise executor) into step summaries, z3 QF_BV bounded model checking over symbolic graph/schedule/faults, native replay of counterexamples',
+            'level_note': PROTO_NOTE if fam == 'proto' else SYM_NOTE,
+            'technique': ('solver-based: symbolic execution of the Rust source (syn AST -> path-wise executor) into step summaries, z3 QF_BV bounded model checking over symbolic graph/schedule/faults, native replay of counterexamples'
+                          if fam == 'proto' else
+                          'solver-based: path-wise symbolic execution of the real Rust source (syn AST) over symbolic inputs, z3 decides path feasibility and one query per path against a reference semantics; native replay of counterexamples'),
         })
 na = [{'property_id': pid, 'reason': 'check not built yet (construction in progress)'} for pid in ids if pid not in CLAIMED]
 m = {'version': 1, 'setup_cmd': './setup.sh',
